@@ -180,8 +180,13 @@ class Program:
         self.funcs = mir.funcs; self.consts = mir.consts; self.allocs = mir.allocs; self.statics = mir.statics
         self.ENUMS = dict(BASE_ENUMS); self.ENUMS.update(enums)
         self.VARIDX = {}
+        from .mir import DISCRIMINANTS
         for t, vs in self.ENUMS.items():
-            for i, v in enumerate(vs): self.VARIDX[(t, v)] = i
+            d = DISCRIMINANTS.get(t, {})
+            for i, v in enumerate(vs):
+                dv = d.get(v, i) if t in enums else i
+                if dv is None: continue        # unknown discriminant: any use of this variant is reported as unsupported
+                self.VARIDX[(t, v)] = dv
         self.constcache = {}; self.resolve_cache = {}
         self.operand_cache = {}; self.rvalue_cache = {}
         self.by_method = {}; self.drop_impls = {}; self.impl_span = {}
